@@ -44,7 +44,7 @@ ASSUMPTIONS = [
 ]
 SIGNATURES = {}
 
-FEAT = gen.Feat(inherit=True, items=True, item_base=True, uncached=True, objrefs=False, shadow=False, max_top=2,
+FEAT = gen.Feat(inherit=True, items=True, item_base=True, uncached=True, objrefs=True, shadow=False, max_top=2,
                 max_child=2, max_cells=3, max_rank=4, depth=2, tick=True, allow_none=True)
 EDITS = ["set_ref", "set_ref", "set_mref", "set_cells_formula", "override", "new_cells", "del_cells", "rename_cells",
          "set_formula", "add_bases", "remove_bases", "set_cached"]
@@ -281,7 +281,10 @@ def run_case(case):
                     nt = True
         elif k == "iassign":
             name, args, value = op[3], tup(op[4]), op[5]
-            eo = elem_of(rm, canon, name, args)
+            try:
+                eo = elem_of(rm, canon, name, args)
+            except (TypeError, KeyError):
+                continue            # the cells of that name has other parameters now (an earlier edit)
             if eo is None:
                 continue
             res = real.apply(["set_value", list(canon), name, list(args), value])
